@@ -364,7 +364,7 @@ def check_names(e, emacros, defined, vars_=None, depth=0):
     if k == "call":
         if e[1] not in emacros:
             raise Fault("UndeclaredExpressionMacro", e[1])
-        for a in e[2][:len(emacros[e[1]][0])]:
+        for a in e[2]:
             check_names(a, emacros, defined, vars_, depth)
         if depth >= MAX_DEPTH:
             raise Fault("Asm.MacroRecursionLimit", e[1])
